@@ -80,7 +80,50 @@ fn part_api(bytes: &[u8], stats: &mut Stats) -> Verdict {
         2 => gen::g_motif_n(&mut s, 10),
         _ => gen::g_motif_n(&mut s, 11),
     };
-    judge_api(&p, stats)
+    judge_api(&p, stats)?;
+    // a look-alike right afterwards on the same generator: same side to move, same king squares,
+    // same occupied squares — two men of the mover have exchanged their kinds (whatever the
+    // generator remembers about the previous position must not leak into this one)
+    if s.chance(40) {
+        if let Some(q) = look_alike(&mut s, &p) {
+            stats.class("look_alike_judged_right_after_its_original");
+            let r = judge_api(&q, stats);
+            // and the original once more
+            return r.and_then(|_| judge_api(&p, stats));
+        }
+    }
+    Ok(())
+}
+
+/// `p` with the kinds of two men of the side to move exchanged (not kings; pawns stay off the
+/// first and last ranks); None if that is not a valid position.
+fn look_alike(s: &mut Src, p: &Pos) -> Option<Pos> {
+    let mine: Vec<u8> = (0..64u8).filter(|q| matches!(p.sq[*q as usize], Some((c, k)) if c == p.stm && k != Kind::K)).collect();
+    if mine.len() < 2 {
+        return None;
+    }
+    for _ in 0..4 {
+        let a = mine[s.below(mine.len())];
+        let b = mine[s.below(mine.len())];
+        let (ka, kb) = (p.sq[a as usize].unwrap().1, p.sq[b as usize].unwrap().1);
+        if a == b || ka == kb {
+            continue;
+        }
+        let on_edge = |q: u8| q < 8 || q >= 56;
+        if (ka == Kind::P && on_edge(b)) || (kb == Kind::P && on_edge(a)) {
+            continue;
+        }
+        let mut q = p.clone();
+        q.sq[a as usize] = Some((p.stm, kb));
+        q.sq[b as usize] = Some((p.stm, ka));
+        q.ep = None;
+        // rook/king homes may have changed: keep only rights that are still consistent
+        crate::gen::repair(&mut q);
+        if q.is_valid() && !q.in_check() && q.stm == p.stm {
+            return Some(q);
+        }
+    }
+    None
 }
 
 fn judge_api(p: &Pos, stats: &mut Stats) -> Verdict {
@@ -124,12 +167,19 @@ fn judge_recorded(p: &Pos, d: u8, cap: u64, stats: &mut Stats) -> Verdict {
     }
     let recs = std::mem::take(&mut searcher.verif.qmoves);
     stats.class("recorded_searches");
-    let mut seen = std::collections::HashSet::new();
+    let mut seen: std::collections::HashMap<Pos, Vec<String>> = std::collections::HashMap::new();
     for (board, in_check_flag, moves, _qply) in recs.iter() {
         let q = eng::board_to_pos(board);
-        if !seen.insert(q.clone()) {
+        let mut listed: Vec<String> = moves.iter().map(|m| m.to_algebraic()).collect();
+        listed.sort();
+        if let Some(first) = seen.get(&q) {
+            // the same node visited again in the same search: the list is a function of the position
+            if *first != listed {
+                return Err(Failure::new("list-differs-between-visits-of-one-position", json!({"root": eng::fen(&p), "depth": d, "node": eng::fen(&q), "first_visit": first, "later_visit": listed})));
+            }
             continue;
         }
+        seen.insert(q.clone(), listed);
         stats.eval();
         if *in_check_flag != q.in_check() {
             return Err(Failure::new("in-check-flag-wrong", json!({"root": eng::fen(&p), "node": eng::fen(&q), "engine_flag": in_check_flag, "reference": q.in_check()})));
@@ -173,8 +223,33 @@ fn part_deep(bytes: &[u8], stats: &mut Stats) -> Verdict {
     }
     let b = eng::to_board(&p);
     let mut searcher = Searcher::new();
+    // one case in ten: an engine that has already searched a lot (several million nodes over
+    // earlier searches of neighbouring positions) before the recorded search — "the moves the
+    // engine keeps examining" must not depend on how much it has examined before
+    if s.chance(10) {
+        let mut total = 0u64;
+        let mut q = p.clone();
+        for _ in 0..8 {
+            if total >= 2_600_000 {
+                break;
+            }
+            searcher.verif_set_hard_cap(Some(900_000));
+            let bq = eng::to_board(&q);
+            let d = 2 + s.below(3) as u8;
+            let _ = std::panic::catch_unwind(std::panic::AssertUnwindSafe(|| searcher.find_best_move(&bq, d, None)));
+            total += searcher.verif_nodes();
+            let legal = q.legal_moves();
+            if let Some(m) = gen::choose_move(&mut s, &q, &legal) {
+                if !q.make(m).legal_moves().is_empty() {
+                    q = q.make(m);
+                }
+            }
+        }
+        stats.class("deep_searches_on_an_engine_with_millions_of_earlier_nodes");
+        stats.maximum("earlier_nodes_on_the_same_engine", total as i64);
+    }
     searcher.verif.record_qmoves = true;
-    searcher.verif.record_min_qply = DEEP_MIN_QPLY;
+    searcher.verif.record_min_qply = if searcher.verif_nodes() > 0 { 1 } else { DEEP_MIN_QPLY };
     searcher.verif_set_hard_cap(Some(DEEP_CAP.with(|c| c.get())));
     let direct = s.chance(35);
     let (how, r) = if direct {
@@ -202,15 +277,21 @@ fn part_deep(bytes: &[u8], stats: &mut Stats) -> Verdict {
     if maxq >= 32 {
         stats.class("deep_searches_reaching_32_plies_below_horizon");
     }
-    let mut seen = std::collections::HashSet::new();
+    let mut seen: std::collections::HashMap<(Pos, bool), Vec<String>> = std::collections::HashMap::new();
     for (board, in_check_flag, moves, qply) in recs.iter() {
         let q = eng::board_to_pos(board);
-        if !seen.insert((q.clone(), *qply >= 32)) {
+        let mut listed: Vec<String> = moves.iter().map(|m| m.to_algebraic()).collect();
+        listed.sort();
+        if let Some(first) = seen.get(&(q.clone(), *qply >= 32)) {
+            if *first != listed {
+                return Err(Failure::new("list-differs-between-visits-of-one-position", json!({"root": eng::fen(&p), "how": how, "node": eng::fen(&q), "first_visit": first, "later_visit": listed, "plies_below_horizon": qply})));
+            }
             continue;
         }
+        seen.insert((q.clone(), *qply >= 32), listed);
         stats.eval();
         stats.class(match *qply {
-            0..=15 => "deep_nodes_10_15_plies_below_horizon",
+            0..=15 => "deep_nodes_up_to_15_plies_below_horizon",
             16..=23 => "deep_nodes_16_23_plies_below_horizon",
             24..=31 => "deep_nodes_24_31_plies_below_horizon",
             _ => "deep_nodes_32_or_more_plies_below_horizon",
